@@ -104,6 +104,10 @@ def gen_desc(rng, with_par):
                 else:
                     sts = [{'op': 'fragment', 'id': sid, 'parts': 2},
                            {'op': 'unbatch', 'parts': 2}]
+                    if rng.random() < 0.5 and not with_par:
+                        # the batches are generators: parts computed on demand
+                        sts[0]['lazy'] = True
+                        sts[0]['parts'] = sts[1]['parts'] = rng.randrange(2, 4)
                 b = a
                 for st in sts:
                     b = pargen.abs_apply(b, st) if b is not None else None
@@ -128,6 +132,11 @@ def gen_desc(rng, with_par):
             a = b
             if rng.random() < 0.4:
                 desc['stages'].append({'op': 'map', 'id': 'd0'})
+        for j_, s_ in enumerate(desc['stages']):
+            # on-demand fragments are judged part by part: only as the last stages
+            if s_['op'] == 'fragment' and s_.get('lazy') and j_ != len(desc['stages']) - 2:
+                s_['lazy'] = False
+                s_['parts'] = desc['stages'][j_ + 1]['parts'] = 2
         # source longer than the allowed look-ahead (zip partner follows)
         L, width = allowance(desc)
         n = L + rng.randrange(3, 9)
@@ -209,7 +218,7 @@ def _iter_sequential(desc, k, epochs):
                 x = next(it)
             except StopIteration:
                 break
-            ctx.event('deliver', j, W.src_ids(x))
+            ctx.event('deliver', j, W.src_ids(x), W.part_path(x))
             j += 1
         it = None
         ctx.event('returned')
@@ -257,6 +266,7 @@ def analyse(desc, log, delivered_ids=None, exhausted=None):
                                   'unbatch') for st in desc['stages'])
     for ep, ev in enumerate(parrun.split_epochs(log)):
         evaluated, accounted = set(), set()
+        parts_made = {}
         seen = {}
         last_u0 = -1
         k = 0
@@ -277,9 +287,20 @@ def analyse(desc, log, delivered_ids=None, exhausted=None):
                                     'epoch %d: first stage saw example %d after %d'
                                     % (ep, ids[0], last_u0)))
                     last_u0 = max(last_u0, ids[0])
+            elif kind == 'part':
+                # key: source ids + the part path of the fragmented element
+                pk = (tuple(e[4]), tuple(e[5][1:]))
+                parts_made[pk] = parts_made.get(pk, 0) + 1
             elif kind == 'verdict' and not e[5]:
                 accounted.update(e[4])
             elif kind == 'deliver':
+                pk = (tuple(e[4]), tuple(e[5][1:])) if len(e) > 5 and e[5] else None
+                if pk is not None and parts_made.get(pk, 0) > e[5][0] + 1:
+                    out.append(('evaluated_beyond_request', 'evaluated_beyond_request:unbatch',
+                                'epoch %d: part %d of the fragments of %s was handed over when %d '
+                                'parts had already been computed (the batches are generators)'
+                                % (ep, e[5][0], list(e[4]), parts_made[pk])))
+                    break
                 if len(e) > 4:
                     accounted.update(e[4])
                 elif delivered_ids is not None:
